@@ -31,6 +31,7 @@ func runRandom(a tr.Args) error {
 	}
 	sum := tr.Summary{Component: "frame"}
 	outcomes := map[string]int{}
+	huge := 0
 	for sid := 1 + a.SidBase; sid <= count+a.SidBase; sid++ {
 		sum.Scenarios++
 		pick := newScen(a.Seed*31+7, sid, 1, "write", false, 0).rng
@@ -106,7 +107,7 @@ func runRandom(a tr.Args) error {
 			if err := emit(ev, err); err != nil {
 				return err
 			}
-			if ev.Res == "panic" {
+			if ev.Res == "panic" || s.huge {
 				panicked = true
 				break
 			}
@@ -119,6 +120,14 @@ func runRandom(a tr.Args) error {
 		}
 		if nontrivial {
 			sum.Nontrivial++
+		}
+		if s.huge {
+			huge++
+			outcomes["huge_reserve"]++
+			if huge >= maxHuge {
+				outcomes["stopped_after_huge_reserve"] = 1
+				break
+			}
 		}
 	}
 	sum.Events = w.N
